@@ -40,6 +40,11 @@ func cloneDeep(v absint.Value) absint.Value {
 	return v
 }
 
+type plainRes struct {
+	ok  bool
+	why string
+}
+
 type c05Cmd struct {
 	cid  int64
 	typ  string // "" no payload
@@ -59,8 +64,9 @@ func checkC05(c *Ctx) {
 	r.Trusted = []string{"internal/absint BDD domain and operator semantics", "AES / AES-CMAC as uninterpreted functions", "models of encoding/binary, append, copy, make, maps and function values"}
 	r.Rule("R1.end-to-end", "sender sequence then receiver sequence: every step succeeds, MIC validation is true, and the receiver's frame equals the sender's original frame for all field values, keys and counters")
 	r.Rule("R2.authenticated-bytes", "the receiver's MIC is computed over exactly the received bytes without the MIC (every received bit reaches the CMAC input)")
-	upCmds := []c05Cmd{{0x03, "LinkADRAnsPayload", 1}, {0x02, "", 0}, {0x06, "DevStatusAnsPayload", 2}}
-	downCmds := []c05Cmd{{0x02, "LinkCheckAnsPayload", 2}, {0x06, "", 0}, {0x08, "RXTimingSetupReqPayload", 1}}
+	// 0x85: a proprietary command without payload needs no registration and may stand anywhere in the list
+	upCmds := []c05Cmd{{0x03, "LinkADRAnsPayload", 1}, {0x02, "", 0}, {0x85, "", 0}, {0x06, "DevStatusAnsPayload", 2}}
+	downCmds := []c05Cmd{{0x02, "LinkCheckAnsPayload", 2}, {0x06, "", 0}, {0x85, "", 0}, {0x08, "RXTimingSetupReqPayload", 1}}
 	for _, mt := range []int64{2, 3, 4, 5} {
 		uplink := mt == 2 || mt == 4
 		cmds := downCmds
@@ -158,6 +164,18 @@ func c05One(c *Ctx, cfg string, mt int64, uplink bool, ver int64, cmds []c05Cmd,
 	}
 	verV := d.Const(ver, 8, false)
 	fcnt := asBits(deepLeaf(orig, mpFHDR+".FCnt"), "FCnt")
+	// parameters the specification ignores for this MAC version may differ between the two sides: in 1.0 ConfFCnt,
+	// TxDr, TxCh are not part of the MIC and the uplink MIC uses one key only (passed in both key positions is not
+	// required: the second key is ignored)
+	rConf, rTxDR, rTxCh, rSKeyUp := conf, txDR, txCh, sKey
+	if ver == 0 {
+		rConf = d.Sym("receiver.confFCnt", 32, false, false)
+		rTxDR = d.Sym("receiver.txDR", 8, false, false)
+		rTxCh = d.Sym("receiver.txCh", 8, false, false)
+		if e := in.Try(func() { rSKeyUp = in.Sym("receiver.sNwkSIntKey", KT, false) }); e != nil {
+			rSKeyUp = sKey
+		}
+	}
 	forParts(in, dom, 6, func(dp absint.Node, pt string) error {
 		key := cfg
 		if pt != "" {
@@ -186,6 +204,7 @@ func c05One(c *Ctx, cfg string, mt int64, uplink bool, ver int64, cmds []c05Cmd,
 		}
 		var b absint.Value
 		var micOK absint.Node
+		var foptsPlain *plainRes
 		rx := &absint.Cell{}
 		err := in.Try(func() {
 			in.SetLive(live)
@@ -221,15 +240,42 @@ func c05One(c *Ctx, cfg string, mt int64, uplink bool, ver int64, cmds []c05Cmd,
 			rmp.F["FHDR"].V.(*absint.Struct).F["FCnt"].V = fcnt
 			var vres []absint.Value
 			if uplink {
-				vres = in.CallMethod(rx, T, "ValidateUplinkDataMIC", verV, conf, txDR, txCh, fKey, sKey)
+				vres = in.CallMethod(rx, T, "ValidateUplinkDataMIC", verV, rConf, rTxDR, rTxCh, fKey, rSKeyUp)
 			} else {
-				vres = in.CallMethod(rx, T, "ValidateDownlinkDataMIC", verV, conf, sKey)
+				vres = in.CallMethod(rx, T, "ValidateDownlinkDataMIC", verV, rConf, sKey)
 			}
 			if !step("ValidateMIC", vres, 1) {
 				return
 			}
 			micOK = vres[0].(*absint.Bits).Bits()[0]
 			if ver == 1 {
+				if fopts {
+					// the decryption half of DecryptFOpts on a copy: the plaintext bytes must be the sender's FOpts bytes
+					// (a decoder fed with symbolic garbage would leave the interpreter's subset instead of failing)
+					probe := &absint.Cell{V: cloneDeep(rx.V)}
+					pres := in.CallMethod(probe, T, "EncryptFOpts", encKey)
+					if ev, ok := pres[0].(*absint.ErrVal); ok && d.M.And(live, ev.NonNil) == absint.False {
+						got := sliceVals(deepLeaf(probe.V, mpFHDR+".FOpts[0].*.Bytes"))
+						var want []absint.Value
+						wl := deepLeaf(orig, mpFHDR+".FOpts").(*absint.Slice)
+						for i := 0; i < wl.Len(); i++ {
+							mc := wl.At(i).V.(*absint.Iface).Dyn.(*absint.Ptr)
+							mb := in.CallMethod(&absint.Cell{V: cloneDeep(mc.To.V)}, in.NamedType("", "MACCommand"), "MarshalBinary")
+							want = append(want, sliceVals(mb[0])...)
+						}
+						okP, whyP := len(got) == len(want), fmt.Sprintf("%d bytes, expected %d", len(got), len(want))
+						if okP {
+							whyP = "equal to the sender's FOpts bytes for every value"
+							for i := range want {
+								if same, w := sameValue(in, got[i], want[i], live); !same {
+									okP, whyP = false, fmt.Sprintf("byte %d: %s", i, w)
+									break
+								}
+							}
+						}
+						foptsPlain = &plainRes{okP, whyP}
+					}
+				}
 				if !step("DecryptFOpts", in.CallMethod(rx, T, "DecryptFOpts", encKey), 0) {
 					return
 				}
@@ -242,6 +288,9 @@ func c05One(c *Ctx, cfg string, mt int64, uplink bool, ver int64, cmds []c05Cmd,
 				return
 			}
 		})
+		if foptsPlain != nil {
+			r.Check(foptsPlain.ok, rule, key+"/fopts-plaintext", "", "the receiver's decrypted FOpts bytes are the sender's MAC-command bytes", foptsPlain.why, true)
+		}
 		if err != nil {
 			if _, isSplit := err.(absint.SplitRequest); isSplit {
 				return err
